@@ -62,6 +62,12 @@ func cgroupFileWriteIfDifferent(cgroupTaskDir string, r sysutil.Resource, value 
 	if r.ResourceType() == sysutil.CPUSetCPUSName && cpuset.IsEqualStrCpus(currentValue, value) {
 		return false, nil
 	}
+	// cgroup-v2 `cpu.max` reads back as "$QUOTA $PERIOD" (e.g. "max 100000", "200000 100000") while only the quota
+	// field is written, so the plain string comparison below can never find it unchanged.
+	if r.ResourceType() == sysutil.CPUCFSQuotaName && sysutil.GetCurrentCgroupVersion() == sysutil.CgroupVersionV2 &&
+		isEqualCFSQuotaV2(currentValue, value) {
+		return false, nil
+	}
 	if value == currentValue || value == CgroupMaxValueStr && currentValue == CgroupMaxSymbolStr {
 		// compatible with cgroup valued "max"
 		klog.V(6).Infof("read before write %s and got str value, considered as MaxInt64", r.Path(cgroupTaskDir))
@@ -71,6 +77,19 @@ func cgroupFileWriteIfDifferent(cgroupTaskDir string, r sysutil.Resource, value 
 		return false, err
 	}
 	return true, nil
+}
+
+// isEqualCFSQuotaV2 checks if the content of the cgroup-v2 `cpu.max` holds the same cfs quota as the value to write.
+func isEqualCFSQuotaV2(currentValue, value string) bool {
+	currentQuota, err := sysutil.ParseCPUCFSQuotaV2(currentValue) // -1 means "max"
+	if err != nil {
+		return false
+	}
+	if value == sysutil.CgroupMaxSymbolStr || value == sysutil.CgroupUnlimitedSymbolStr {
+		return currentQuota == -1
+	}
+	quota, err := strconv.ParseInt(value, 10, 64)
+	return err == nil && quota >= 0 && quota == currentQuota
 }
 
 // CgroupFileWrite writes the cgroup file with the given value.
